@@ -26,6 +26,22 @@ package quic
 //   - closing period over (RemoveAll: immediately): handlers and resetTokens are empty
 //     and nothing reaches the connection; at no time does a retired+expired or foreign ID
 //     reach it.
+//
+// Part "transport-paths" (c16WorldCfg.paths): a CLIENT-side connection (connection.go
+// newClientConnection wiring, registered as Transport.doDial does) that is reachable through
+// TWO real Transports: op "addpath" does what Conn.AddPath's enablePath callback does
+// (connIDGenerator.AddConnRunner with the second Transport's packetHandlerMap), at any point
+// of the history, i.e. after some IDs were issued / retired / expired. The same observations
+// are made on both Transports. On the Transport added later the oracle is the statement read
+// leniently, as in c16_gen_test.go: every issued, unretired ID must reach the connection,
+// nothing but a live ID (issued and not yet expired) may; before "addpath" nothing may. After
+// close: nothing retired+expired / foreign reaches the connection through either Transport,
+// and when the closing period is over both handler maps and both token maps are empty (the
+// closed stand-ins are gone). connIDGenerator.ReplaceWithClosed hands ONE id slice to every
+// registered map and every map keeps it for its expiry timer: the harness passes the slice
+// through untouched, keeps a copy, and demands after every later step that the callee did
+// not write to it (frame condition of the routing clauses: a map that edits the shared slice
+// changes what the other map replaces / removes).
 
 import (
 	"fmt"
@@ -59,9 +75,26 @@ func (c *c16Conn) closeWithTransportError(qerr.TransportErrorCode) {}
 
 var _ packetHandler = &c16Conn{}
 
+type c16WorldCfg struct {
+	paths bool // client-side connection, a second real Transport can be added (Conn.AddPath)
+}
+
+// c16Handed is one id slice the generator handed to a packetHandlerMap.
+type c16Handed struct {
+	tr   int
+	ids  []protocol.ConnectionID // the very slice
+	snap []protocol.ConnectionID // its contents at the time of the call
+}
+
 type c16World struct {
-	tr    *Transport
-	hm    *packetHandlerMap
+	cfg    c16WorldCfg
+	tr     *Transport
+	hm     *packetHandlerMap
+	tr2    *Transport // paths: the Transport of the second path
+	hm2    *packetHandlerMap
+	added2 bool // AddConnRunner(hm2) happened
+	srt    bool // the server's stateless_reset_token transport parameter was processed
+	handed []c16Handed
 	conn  *c16Conn
 	g     *connIDGenerator
 	m     *connIDManager
@@ -88,10 +121,9 @@ type c16World struct {
 
 func (w *c16World) nowT() monotime.Time { return c16TimeBase.Add(time.Duration(w.tick) * c16Tick) }
 
-func newC16World(maxT int, capSeq uint64) *c16World {
-	w := &c16World{maxT: maxT, capSq: capSeq, issued: map[uint64]protocol.ConnectionID{}, retired: map[uint64]bool{}, conn: &c16Conn{}}
-	// the part of Transport.init that does not need a socket
-	w.tr = &Transport{
+// c16Transport: the part of Transport.init that does not need a socket.
+func c16Transport() *Transport {
+	return &Transport{
 		handlers:            map[protocol.ConnectionID]packetHandler{},
 		resetTokens:         map[protocol.StatelessResetToken]packetHandler{},
 		closeQueue:          make(chan closePacket, 4),
@@ -99,6 +131,26 @@ func newC16World(maxT int, capSeq uint64) *c16World {
 		connIDLen:           4,
 		logger:              utils.DefaultLogger,
 	}
+}
+
+// callbacks: what connection.go (newConnection, newClientConnection, AddPath) installs for
+// runner; ReplaceWithClosed passes the generator's slice through and remembers it.
+func (w *c16World) callbacks(i int, runner *packetHandlerMap) connRunnerCallbacks {
+	s := w.conn
+	return connRunnerCallbacks{
+		AddConnectionID:    func(connID protocol.ConnectionID) { runner.Add(connID, s) },
+		RemoveConnectionID: runner.Remove,
+		ReplaceWithClosed: func(ids []protocol.ConnectionID, pkt []byte, expiry time.Duration) {
+			snap := append([]protocol.ConnectionID{}, ids...)
+			runner.ReplaceWithClosed(ids, pkt, expiry)
+			w.handed = append(w.handed, c16Handed{tr: i, ids: ids, snap: snap})
+		},
+	}
+}
+
+func newC16World(cfg c16WorldCfg, maxT int, capSeq uint64) *c16World {
+	w := &c16World{cfg: cfg, maxT: maxT, capSq: capSeq, issued: map[uint64]protocol.ConnectionID{}, retired: map[uint64]bool{}, conn: &c16Conn{}}
+	w.tr = c16Transport()
 	w.hm = (*packetHandlerMap)(w.tr)
 	runner := w.hm
 	s := w.conn
@@ -121,15 +173,18 @@ func newC16World(maxT int, capSeq uint64) *c16World {
 		runner.RemoveResetToken,
 		queue,
 	)
-	w.g = newConnIDGenerator(
-		runner, src, &dcid, newStatelessResetter(&c16ResetterKey),
-		connRunnerCallbacks{
-			AddConnectionID:    func(connID protocol.ConnectionID) { runner.Add(connID, s) },
-			RemoveConnectionID: runner.Remove,
-			ReplaceWithClosed:  runner.ReplaceWithClosed,
-		},
-		queue, w.idgen,
-	)
+	if cfg.paths {
+		// connection.go newClientConnection: no client destination ID to retire
+		w.tr2 = c16Transport()
+		w.hm2 = (*packetHandlerMap)(w.tr2)
+		w.g = newConnIDGenerator(runner, src, nil, newStatelessResetter(&c16ResetterKey), w.callbacks(0, runner), queue, w.idgen)
+		// transport.go doDial
+		w.tr.mutex.Lock()
+		w.tr.handlers[src] = s
+		w.tr.mutex.Unlock()
+		return w
+	}
+	w.g = newConnIDGenerator(runner, src, &dcid, newStatelessResetter(&c16ResetterKey), w.callbacks(0, runner), queue, w.idgen)
 	// server.go: the new connection is registered under the client's destination ID and its own first ID
 	explore.Must(runner.AddWithConnID(dcid, src, s), "AddWithConnID failed on an empty transport")
 	return w
@@ -155,7 +210,7 @@ func (w *c16World) ops() []explore.Op {
 		ops = append(ops, explore.Op{N: "sleep"})
 	}
 	ops = append(ops, explore.Op{N: "rm"})
-	if !w.hc {
+	if !w.hc && !w.cfg.paths {
 		ops = append(ops, explore.Op{N: "hc"})
 	}
 	for _, l := range []int{2, 4} {
@@ -167,6 +222,20 @@ func (w *c16World) ops() []explore.Op {
 		for s := uint64(0); s <= min(h, 2); s++ {
 			ops = append(ops, explore.Op{N: "retire", A: int(s)})
 		}
+	}
+	if w.cfg.paths {
+		// the peer-issued IDs (rotation, path probing, NEW_CONNECTION_ID) live on the first
+		// Transport only and are explored by part "transport"; here: the server's
+		// stateless_reset_token transport parameter, and the second path
+		if !w.srt {
+			ops = append(ops, explore.Op{N: "srt"})
+		}
+		if !w.added2 {
+			ops = append(ops, explore.Op{N: "addpath", A: 0})
+		}
+		ops = append(ops, explore.Op{N: "addpath", A: 1}) // migrating back to the first Transport
+		ops = append(ops, explore.Op{N: "close", A: 0}, explore.Op{N: "close", A: 1}, explore.Op{N: "close", A: 2})
+		return ops
 	}
 	for s := 1; s <= 3; s++ {
 		ops = append(ops, explore.Op{N: "ncid", A: s})
@@ -195,20 +264,20 @@ func c16Datagram(cid protocol.ConnectionID, tail []byte) receivedPacket {
 	return receivedPacket{buffer: buf, data: d, remoteAddr: &net.UDPAddr{IP: net.IPv4(192, 0, 2, 1), Port: 4433}}
 }
 
-func (w *c16World) probeCID(cid protocol.ConnectionID) (reached, closeRetransmit bool) {
+func (w *c16World) probeCID(tr *Transport, cid protocol.ConnectionID) (reached, closeRetransmit bool) {
 	before := w.conn.handled.Load()
-	w.tr.handlePacket(c16Datagram(cid, nil))
+	tr.handlePacket(c16Datagram(cid, nil))
 	select {
-	case <-w.tr.closeQueue:
+	case <-tr.closeQueue:
 		closeRetransmit = true
 	default:
 	}
 	return w.conn.handled.Load() > before, closeRetransmit
 }
 
-func (w *c16World) probeToken(tok protocol.StatelessResetToken) bool {
+func (w *c16World) probeToken(tr *Transport, tok protocol.StatelessResetToken) bool {
 	before := w.conn.destroyed.Load()
-	w.tr.handlePacket(c16Datagram(c16ForeignCID, tok[:]))
+	tr.handlePacket(c16Datagram(c16ForeignCID, tok[:]))
 	synctest.Wait() // the transport calls destroy on its own goroutine
 	return w.conn.destroyed.Load() > before
 }
@@ -267,6 +336,21 @@ func (w *c16World) step(op explore.Op) *explore.Fail {
 			w.phase = 2
 			w.outcome = "ncid:" + c16ErrClass(err)
 			return nil
+		}
+	case "srt":
+		// connection.go applyTransportParameters (client): the token for the server's first ID
+		w.m.SetStatelessResetToken(c16PeerToken(0, false))
+		w.srt = true
+	case "addpath":
+		// connection.go AddPath -> pathManagerOutgoing.NewPath(enablePath) -> Path.Probe / Switch
+		runner, i := w.hm2, 1
+		if op.A == 1 {
+			runner, i = w.hm, 0
+		}
+		res = fmt.Sprintf("second=%v known=%v", op.A == 0, op.A == 1 || w.added2)
+		w.g.AddConnRunner(runner, w.callbacks(i, runner))
+		if op.A == 0 {
+			w.added2 = true
 		}
 	case "get":
 		w.m.Get()
